@@ -257,6 +257,50 @@ func genC11(r *Rng, e *Emitter, n int) {
 		e.tally("op=locate-power-of-two-abscissae")
 		emitLocate(e, stride, p, ring)
 	}
+	// rectangles and diamonds whose half sizes are powers of two (2^20 … 2^50, exactly or one off),
+	// either way round, from any vertex, the query point at the centre, on an edge, outside
+	for i := 0; i < n/10+8; i++ {
+		hs := func() float64 {
+			return math.Ldexp(1, 20+r.Intn(31)) + float64(r.Intn(3)-1)
+		}
+		hx, hy := hs(), hs()
+		if r.chance(1, 2) {
+			hy = hx
+		}
+		if r.chance(1, 3) {
+			hx, hy = math.Ldexp(1, 31), math.Ldexp(1, 31)
+		}
+		cx0, cy0 := float64(r.Intn(7)-3), float64(r.Intn(7)-3)
+		vs := [][2]float64{{cx0 - hx, cy0 - hy}, {cx0 + hx, cy0 - hy}, {cx0 + hx, cy0 + hy}, {cx0 - hx, cy0 + hy}}
+		if r.chance(1, 3) {
+			vs = [][2]float64{{cx0 - hx, cy0}, {cx0, cy0 - hy}, {cx0 + hx, cy0}, {cx0, cy0 + hy}}
+		}
+		if r.chance(1, 2) {
+			vs[1], vs[3] = vs[3], vs[1]
+		}
+		st := r.Intn(4)
+		stride := 2 + r.Intn(3)
+		ring := make([]float64, 0, 5*stride)
+		for k := 0; k <= 4; k++ {
+			v := vs[(st+k)%4]
+			ring = append(ring, v[0], v[1])
+			for o := 2; o < stride; o++ {
+				ring = append(ring, r.anyBits())
+			}
+		}
+		p := geom.Coord{cx0, cy0}
+		switch r.Intn(4) {
+		case 1:
+			p = geom.Coord{cx0 + hx, cy0 + float64(r.Intn(5)-2)}
+		case 2:
+			p = geom.Coord{cx0 + 2*hx, cy0}
+		}
+		for o := 2; o < stride; o++ {
+			p = append(p, r.anyBits())
+		}
+		e.tally("op=locate-power-of-two-box")
+		emitLocate(e, stride, p, ring)
+	}
 	grids := []int{4, 6, 8, 16, 1 << 26}
 	for i := 0; i < n; i++ {
 		stride := 2 + r.Intn(5)
